@@ -30,13 +30,16 @@
     select_only_id_ok selects_only_id filler_unnamed_unchanged filler_unnamed_id
     filler_start_events filler_text_events
     filler_empty_id filler_only_value_attrs_partial filler_no_text_change_partial
-    filler_wellnested_partial filler_fills_given_partial filler_checks_given filler_selects_given
-    filler_fills_textarea_partial filler_no_passwords
+    filler_wellnested_partial filler_fills_given filler_checks_given filler_selects_given
+    filler_textarea_end_writes_value filler_no_passwords
     filler_option_children_moved filler_textarea_none_erased
+    filler_confined_partial filler_confined_stream_partial filler_input_confined filler_option_confined
+    filler_fills_textarea filler_nested_form_unfilled
 -/
 import Genshi.Lemmas.TfSegs2
 import Genshi.Lemmas.TfChains
 import Genshi.Lemmas.TfFill
+import Genshi.Lemmas.TfFillSpec
 namespace Genshi.Props.C20
 open Genshi Genshi.Tf
 
@@ -381,9 +384,9 @@ theorem filler_wellnested_partial (c : Cfg) (s out : Stream) (hopt : optText fal
 
 /-- Fills what it is given, text-like inputs: an input of type text / hidden / none (or
     password when asked) whose name has a value in the data comes out with `value` = that value
-    (`_partial`: a value `None` — or an empty list — is "nothing given"; for a textarea it
-    nevertheless erases the content, known finding C20-textarea-none). -/
-theorem filler_fills_given_partial (c : Cfg) (a : AttrList) (name : Str) (value : Val) (v : Scalar)
+    (a value `None` — or an empty list — is "nothing given": `firstOf`).  Every `input` START
+    inside the selected form is passed through `inputAttrs` (`filler_confined_partial`). -/
+theorem filler_fills_given (c : Cfg) (a : AttrList) (name : Str) (value : Val) (v : Scalar)
     (ht : inputType a = [] ∨ inputType a = sHidden ∨ inputType a = sText ∨
       (inputType a = sPassword ∧ c.passwords = true))
     (hn : aget a sName = some name) (hne : name.isEmpty = false) (hl : c.lookup name = some value)
@@ -421,8 +424,8 @@ theorem filler_selects_given (c : Cfg) (st : St) (tag ot : QName) (oa : AttrList
       simpa [hsel'] using hh
 
 /-- At the END of a textarea named in the data the given value is written as its text
-    (`_partial`: `None` writes nothing although the old content was dropped — C20-textarea-none). -/
-theorem filler_fills_textarea_partial (c : Cfg) (st : St) (tag : QName) (v : Scalar)
+    (state level; the stream-level statement is `filler_confined_partial` + `filler_fills_textarea`). -/
+theorem filler_textarea_end_writes_value (c : Cfg) (st : St) (tag : QName) (v : Scalar)
     (hF : st.inForm = true) (hT : st.inTextarea = true) (ht : tag.loc = sTextarea)
     (hS : st.inSelect = false) (hv : st.textareaValue = some v) (hne : v.text.isEmpty = false) :
     (step c st (.end_ tag)).map (·.2) = some [.text v.text false, .end_ tag] := by
@@ -531,6 +534,93 @@ theorem filler_textarea_none_erased :
        .end_ ⟨[], sTextarea⟩, .end_ ⟨[], sForm⟩] =
     some [.start ⟨[], sForm⟩ [], .start ⟨[], sTextarea⟩ [(⟨[], sName⟩, ['t'])],
        .end_ ⟨[], sTextarea⟩, .end_ ⟨[], sForm⟩] := by decide
+
+/-! ### the filler against its documentation semantics, stream level -/
+
+/-
+  Full statement: on every well-nested stream the form filler changes nothing but value / checked /
+  selected attributes and textarea content of controls named in its data, and fills what it is given.
+
+  `fillSpec` (`Model/TfFillSpec.lean`) is that sentence as a function on forests: it walks the
+  tree with the context "inside the selected form / below a select named in the data" and rewrites
+  exactly three things — the attributes of an `input` in the form (`inputAttrs`: `filler_input_confined`,
+  `filler_fills_given`, `filler_checks_given`, `filler_no_passwords`, `filler_unnamed_unchanged`), the
+  attributes of an `option` below a select named in the data (`optionAttrs`: `filler_option_confined`)
+  and the children of a `textarea` named in the data (`textareaKids`: `filler_fills_textarea`).
+  Proved: the state machine of the code computes `fillSpec` on every forest in `okForest`, i.e. on
+  every forest outside the recorded findings:
+    * C20-option-children — an option below a select named in the data holds something else than text;
+    * C20-nested-controls — a form inside the selected form, a select inside a select named in the
+      data, an element inside a textarea named in the data (the code keeps flags, not depths:
+      witness `filler_nested_form_unfilled`).
+  (C20-textarea-none is inside the domain: `fillSpec` is bug-compatible there, `textareaKids` writes
+  nothing for `None`; `filler_fills_textarea` is about values that are given.)
+-/
+theorem filler_confined_partial (c : Cfg) (ns : List Node) (hok : okForest c ns = true) :
+    fill c (flattenList ns) = some (flattenList (fillSpec c ns)) := fill_spec c ns hok
+
+/-- … and every well-nested stream is such a flattening: `parse` reads it back into a forest. -/
+theorem filler_confined_stream_partial (c : Cfg) (s : Stream) (hwn : WellNested s) :
+    ∃ ns, parse s = some ns ∧ flattenList ns = s ∧
+      (okForest c ns = true → fill c s = some (flattenList (fillSpec c ns))) := by
+  obtain ⟨ns, hp, hf, _⟩ := parse_wellNested s hwn
+  exact ⟨ns, hp, hf, fun hok => by rw [← hf]; exact fill_spec c ns hok⟩
+
+/-- What `inputAttrs` may do to an input: nothing; or — the input is named in the data — change
+    `checked` only (checkbox / radio) or `value` only (other types; a password only when asked). -/
+theorem filler_input_confined (c : Cfg) (a : AttrList) :
+    inputAttrs c a = a ∨
+    (∃ name value, aget a sName = some name ∧ c.lookup name = some value ∧
+      ((inputType a = sCheckbox ∨ inputType a = sRadio) ∧ adel (inputAttrs c a) sChecked = adel a sChecked ∨
+       ¬ (inputType a = sPassword ∧ c.passwords = false) ∧ ¬ (inputType a = sCheckbox ∨ inputType a = sRadio) ∧
+         adel (inputAttrs c a) sValue = adel a sValue)) := inputAttrs_confined c a
+
+/-- What `optionAttrs` does to an option below a select named in the data (value `v`, a scalar or
+    a list): nothing but `selected` changes, and it is present exactly when the option's value — its
+    `value` attribute, else its text — is (among) the given value(s). -/
+theorem filler_option_confined (v : Val) (a : AttrList) (ks : List Node) :
+    adel (optionAttrs v a ks) sSelected = adel a sSelected ∧
+    ahas (optionAttrs v a ks) sSelected = isSelected (optionVal a ks) (some v) :=
+  ⟨optionAttrs_confined v a ks, optionAttrs_selected v a ks⟩
+
+/-- What `textareaKids` does to a textarea named in the data with a given value: its text is
+    the value, its other children are unchanged. -/
+theorem filler_fills_textarea (v : Val) (x : Scalar) (ks : List Node) (hf : firstOf v = some x) :
+    textOf (textareaKids v ks) = x.text ∧
+    (textareaKids v ks).filter (fun k => !isTextLeaf k) = ks.filter (fun k => !isTextLeaf k) :=
+  textareaKids_spec v x ks hf
+
+/-- non-vacuity: a form with a select (two values given), a checkbox and a textarea -/
+example :
+    let c : Cfg := ⟨none, none, [(['s'], .many [⟨['1'], true, false⟩, ⟨['x'], true, false⟩]),
+      (['t'], .one ⟨['v'], true, false⟩), (['k'], .one ⟨['o', 'n'], true, false⟩)], false⟩
+    let ns : List Node := [.elem ⟨[], sForm⟩ [] [
+      .elem ⟨[], sSelect⟩ [(⟨[], sName⟩, ['s'])] [
+        .elem ⟨[], sOption⟩ [(⟨[], sValue⟩, ['1'])] [.leaf (.text ['a'] false)],
+        .elem ⟨[], sOption⟩ [(⟨[], sSelected⟩, sSelected)] [.leaf (.text ['y'] false)],
+        .elem ⟨[], sOption⟩ [] [.leaf (.text ['x'] false)]],
+      .elem ⟨[], sInput⟩ [(⟨[], sType⟩, sCheckbox), (⟨[], sName⟩, ['k'])] [],
+      .elem ⟨[], sTextarea⟩ [(⟨[], sName⟩, ['t'])] [.leaf (.text ['o', 'l', 'd'] false)]]]
+    okForest c ns = true ∧
+    flattenList (fillSpec c ns) = flattenList [.elem ⟨[], sForm⟩ [] [
+      .elem ⟨[], sSelect⟩ [(⟨[], sName⟩, ['s'])] [
+        .elem ⟨[], sOption⟩ [(⟨[], sValue⟩, ['1']), (⟨[], sSelected⟩, sSelected)] [.leaf (.text ['a'] false)],
+        .elem ⟨[], sOption⟩ [] [.leaf (.text ['y'] false)],
+        .elem ⟨[], sOption⟩ [(⟨[], sSelected⟩, sSelected)] [.leaf (.text ['x'] false)]],
+      .elem ⟨[], sInput⟩ [(⟨[], sType⟩, sCheckbox), (⟨[], sName⟩, ['k']), (⟨[], sChecked⟩, sChecked)] [],
+      .elem ⟨[], sTextarea⟩ [(⟨[], sName⟩, ['t'])] [.leaf (.text ['v'] false)]]] := by decide
+
+/-- Known finding C20-nested-controls (outside `okForest`): the filler keeps flags, not depths.
+    `<form><form></form><input name="n"/></form>` with data `{'n': 'v'}`: the END of the inner form
+    ends the processing of the outer one, the input named in the data is not filled. -/
+theorem filler_nested_form_unfilled :
+    let c : Cfg := ⟨none, none, [(['n'], .one ⟨['v'], true, false⟩)], false⟩
+    let ns : List Node := [.elem ⟨[], sForm⟩ [] [.elem ⟨[], sForm⟩ [] [],
+      .elem ⟨[], sInput⟩ [(⟨[], sName⟩, ['n'])] []]]
+    fill c (flattenList ns) = some (flattenList ns) ∧ okForest c ns = false ∧
+    flattenList (fillSpec c ns) = [.start ⟨[], sForm⟩ [], .start ⟨[], sForm⟩ [], .end_ ⟨[], sForm⟩,
+      .start ⟨[], sInput⟩ [(⟨[], sName⟩, ['n']), (⟨[], sValue⟩, ['v'])], .end_ ⟨[], sInput⟩,
+      .end_ ⟨[], sForm⟩] := by decide
 
 /-- non-vacuity of the filler theorems: a form with a text input, data for it -/
 example : optText false [.start ⟨[], sForm⟩ [], .start ⟨[], sInput⟩ [(⟨[], sName⟩, ['n'])],
